@@ -8,6 +8,10 @@
     ¬acked  ⇒ the request answers with an error, the destination is not reported, and the environment
               ends in ERROR (NewEnvironment: is not left in the destination — it is torn down).
   Failures of non-critical tasks and the absence of tasks do not enter `acked`: they must not matter.
+  Neither does the loss of a target's executor or agent while the command is outstanding — except through what the
+  task then does: a reply that never left is not an acknowledgement (`effOuts`). When a critical live task is lost and
+  the transition nevertheless succeeds (it had acknowledged before), the request still answers OK; the environment is
+  then taken to ERROR by its watcher, which may show in the reply's state already.
 -/
 import ControlModel.Model.Transition
 
@@ -49,18 +53,20 @@ def earlyRunning (ls : List (Bool × Launch)) : Bool := ls.any (fun l => l.2 = .
 /-- The workflow has no role at all. -/
 def emptyWorkflow (wf : Workflow) : Bool := wf.tasks.isEmpty && wf.calls = 0
 
-/-- What the property demands of one request's observation. -/
-def reqOk (acked : Bool) (dst : St) (isNew : Bool) (o : Obs) : Bool :=
-  if acked then o.rpc = .ok && o.state = some dst && o.after = some dst
+/-- What the property demands of one request's observation. `cl`: a critical live task was lost during the request. -/
+def reqOk (acked : Bool) (dst : St) (isNew : Bool) (o : Obs) (cl : Bool := false) : Bool :=
+  if acked then
+    if cl then o.rpc = .ok && (o.state = some dst || o.state = some .ERROR) && o.after = some .ERROR
+    else o.rpc = .ok && o.state = some dst && o.after = some dst
   else o.rpc = .err && o.state ≠ some dst && (if isNew then o.after ≠ some dst else o.after = some .ERROR)
 
 def reached (dst : St) (o : Obs) : Bool := o.rpc = .ok && o.state = some dst
 
 /-- Verdict on one ControlEnvironment observation: `none` = as demanded, `some id` = violated, `id` being the
     excluded corner the input lies in (or "-"). -/
-def judgeCtl (e : Ev) (dst : St) (ts : List Target) (o : Obs) : Option String :=
+def judgeCtl (e : Ev) (dst : St) (ts : List Target) (o : Obs) (cl : Bool := false) : Option String :=
   let acked := allCriticalAcked ts
-  if reqOk acked dst false o then none
+  if reqOk acked dst false o cl then none
   else if acked then
     if reached dst o then some "-"          -- reported, but the state afterwards is not the destination
     else if noTargets ts then some (if e = .CONFIGURE then "configure_nothing_hangs" else "zero_targets_error")
@@ -94,14 +100,17 @@ def judgeSteps (st : St) (tasks : List Task) : List SStep → List Obs → Optio
   | [], _ => none
   | _, [] => none
   | .die outs :: rest, os => judgeSteps st (afterCommand tasks outs) rest os
-  | .ctl e outs _ :: rest, o :: os =>
+  | .ctl e outs _ ls :: rest, o :: os =>
     if !commands e then none else
     match dst? e st with
     | none => none          -- not a request the property speaks about
     | some d =>
-      match judgeCtl e d (targets (pair tasks outs)) o with
+      -- what the targets did, losses taken into account: a reply that never left is no acknowledgement
+      let outs' := effOuts ls outs
+      match judgeCtl e d (targets (pair tasks outs')) o (critLost ls tasks) with
       | some h => some h
-      | none => if reached d o then judgeSteps d (afterCommand tasks outs) rest os else none
+      | none =>
+        if reached d o && !critLost ls tasks then judgeSteps d (loseTasks ls (afterCommand tasks outs')) rest os else none
 
 /-- The verdict with EVERY corner named, the repaired ones too (the analysis of the code as it was: `Cfg.legacy`). -/
 def judgeAll (sc : Scenario) : List Obs → Option String
